@@ -60,12 +60,13 @@ TraceReturn ==
 TracePanic ==
     /\ IsEvent("Panic")
     /\ cur # NoCall /\ Rec.case = cur.case
-    /\ IF PanicAllowed(cur)
-       THEN Panic(Rec)
-       ELSE /\ (IF "C01" \in Props THEN PrintT("VIOL " \o ToJson(<<cur.case, {<<"C01", "Panic">>}, Rec.where, Rec.msg>>)) ELSE TRUE)
-            /\ cur' = NoCall /\ UNCHANGED grp
-    /\ cnt' = [cnt EXCEPT !.panics = @ + 1,
-                          !.viol = @ + (IF ~PanicAllowed(cur) /\ "C01" \in Props THEN 1 ELSE 0)]
+    /\ LET V == (IF ~PanicAllowed(cur) /\ "C01" \in Props THEN {<<"C01", "Panic">>} ELSE {})
+                \cup (IF PanicBreaksRelation(cur, grp) THEN {<<RelPropOf(cur.rel), "ReturnsLikeItsReference">>} ELSE {})
+       IN /\ IF PanicAllowed(cur)
+             THEN Panic(Rec)
+             ELSE /\ (IF V # {} THEN PrintT("VIOL " \o ToJson(<<cur.case, V, Rec.where, Rec.msg>>)) ELSE TRUE)
+                  /\ cur' = NoCall /\ UNCHANGED grp
+          /\ cnt' = [cnt EXCEPT !.panics = @ + 1, !.viol = @ + (IF V # {} THEN 1 ELSE 0)]
     /\ Final
 
 TraceAbort ==      \* AutogApi!Abort is never enabled: an abort is always rejected
